@@ -1,5 +1,6 @@
 import WR.Base.Sexp
 import WR.C09.Spec
+import WR.C09.Shape2
 open WR WR.Sexp WR.C09
 
 namespace Driver.C09
@@ -103,6 +104,12 @@ def handle (req : Sexp) : Sexp :=
     | .list [.atom "wf", b] => do
       let b ← getBox depthFuel b
       some (ok (ofBool (wfRoot b) :: (rootReasons b).eraseDups.map fun (e, r) => .list [ofInt e, .str r]))
+    | .list [.atom "rawok", b] => do
+      let b ← getBox depthFuel b
+      -- hypothesis of the composition theorem, and the same without the "no running inline box" conjunct
+      let noRun : Ty → Attrs → List Box → List Box → Bool := fun ty a kids cols =>
+        rawOK ty a (kids.map fun c => c.setA { c.a with running := false }) cols
+      some (ok [ofBool (allW rawOK b), ofBool (allW noRun b), ofBool (isBlockLevel b.ty && !b.a.running)])
     | .list [.atom "intattr", p, m] => do
       some (ok [ofNat (intAttr (← optInt p) (← m.asNat?))])
     | _ => none
